@@ -102,3 +102,51 @@ func init() {
 		Stubs:   stubsCommon,
 	})
 }
+
+func init() {
+	register(&CheckDef{
+		ID:    "C02",
+		Title: "Clean restart preserves the exact key-value mapping, under any configuration",
+		Reach: []string{"done", "rotated", "restarted", "restarted-twice", "batch-committed", "merged"},
+		Jobs: func(tier string) []JobSpec {
+			var js []JobSpec
+			add := func(name string, params map[string]int64) {
+				js = append(js, JobSpec{Name: name, Harness: "root", Func: "verifHarnessC02", Params: params, Scale: scaleDF(32)})
+			}
+			base := p("pool", 2, "klen", 1, "vlens", 3, "vbig", 25)
+			if tier == "quick" {
+				// every file end offset: one put of a value whose length the solver ranges over a whole block
+				add("end-offsets-std", merge(base, p("k", 1, "ops", opPut, "vlens", 4, "vbig2", -40, "index", 3, "shards", 1)))
+				add("end-offsets-mmap", merge(base, p("k", 1, "ops", opPut, "vlens", 4, "vbig2", -40, "index", 3, "shards", 1, "io", 1, "r_io", 1)))
+				add("hashmap-to-btree-k3", merge(base, p("k", 3, "ops", opPut|opDelete, "index", 3, "shards", 1, "r_index", 1, "r_shards", 2, "dfs_lo", 40, "dfs_hi", 150, "r_dfs_lo", 20, "r_dfs_hi", 60)))
+				add("skiplist-to-hashmap-k2-k2", merge(base, p("k", 2, "k2", 2, "ops", opPut|opDelete, "vlens", 2, "index", 2, "shards", 2, "r_index", 3, "r_shards", 1, "dfs_lo", 40, "dfs_hi", 100)))
+				add("batch-k2", merge(base, p("k", 2, "k2", 0, "ops", opPut|opBatch, "bmax", 2, "vlens", 2, "index", 3, "shards", 1, "r_index", 1)))
+				add("batch-k1-k1", merge(base, p("k", 1, "k2", 1, "ops", opBatch, "bmax", 2, "vlens", 2, "index", 3, "shards", 1, "r_index", 2, "dfs_lo", 100, "dfs_hi", 180)))
+				add("mmap-to-std-k2-k1", merge(base, p("k", 2, "k2", 1, "ops", opPut|opDelete, "index", 3, "shards", 1, "io", 1, "r_io", 1)))
+				add("std-to-mmap-k2-k1", merge(base, p("k", 2, "k2", 1, "ops", opPut|opDelete, "index", 3, "shards", 1, "io", 0, "r_io", 2)))
+				add("merge-k3", merge(base, p("k", 3, "k2", 1, "ops", opPut|opDelete|opMerge, "vlens", 2, "index", 1, "shards", 1)))
+			} else {
+				add("end-offsets-std", merge(base, p("k", 1, "ops", opPut, "vlens", 4, "vbig2", -100, "index", 3, "shards", 1)))
+				add("end-offsets-mmap", merge(base, p("k", 1, "ops", opPut, "vlens", 4, "vbig2", -100, "index", 3, "shards", 1, "io", 1, "r_io", 1)))
+				for w := 1; w <= 3; w++ {
+					for r := 1; r <= 3; r++ {
+						add(fmt.Sprintf("%s-to-%s-k3-k1", idxName[w], idxName[r]), merge(base, p("k", 3, "k2", 1, "ops", opPut|opDelete, "index", w, "shards", 2, "r_index", r, "r_shards", 3, "dfs_lo", 40, "dfs_hi", 150, "r_dfs_lo", 20, "r_dfs_hi", 60)))
+					}
+				}
+				add("batch-k3-k1", merge(base, p("k", 3, "k2", 1, "ops", opPut|opDelete|opBatch, "bmax", 2, "vlens", 2, "index", 3, "shards", 1, "r_index", 1, "dfs_lo", 60, "dfs_hi", 200)))
+				add("mmap-to-std-k3-k1", merge(base, p("k", 3, "k2", 1, "ops", opPut|opDelete|opBatch, "bmax", 1, "index", 3, "shards", 1, "io", 1, "r_io", 1)))
+				add("std-to-mmap-k3-k1", merge(base, p("k", 3, "k2", 1, "ops", opPut|opDelete|opBatch, "bmax", 1, "index", 3, "shards", 1, "io", 0, "r_io", 2)))
+				add("merge-k3-k2", merge(base, p("k", 3, "k2", 2, "ops", opPut|opDelete|opMerge|opBatch, "bmax", 1, "vlens", 2, "index", 1, "shards", 1, "dfs_lo", 60, "dfs_hi", 150)))
+			}
+			js = append(js, JobSpec{Name: "witness", Harness: "root", Func: "verifHarnessC02", Params: merge(base, p("k", 1, "k2", 1, "ops", opPut, "index", 3, "shards", 1, "witness", 1)), Scale: scaleDF(32), Witness: true})
+			return js
+		},
+		Assumptions: []string{"blockSize scaled to 32 (Level 1), mmap granule 128", "I/O never fails", "no foreign files in the directory"},
+		Bounds: map[string]string{
+			"quick":    "K=1..3 ops + restart (+K2<=2 ops + second restart); every end offset of a one-record file over 40 value lengths (std and mmap); writer/reader pairs over index type, shard count, I/O type, DataFileSize (symbolic, reader smaller than existing files); batches of <=2 ops; merge",
+			"thorough": "all 9 writer/reader index pairs at K=3+1, 100 value lengths for end offsets, batches and merges mixed in",
+		},
+		Outside: "more than two restarts; histories longer than K+K2; real 32 KiB geometry; foreign files",
+		Stubs:   stubsCommon,
+	})
+}
